@@ -203,6 +203,21 @@ class Key:
         return der_sig(_der_int(r), _der_int(s))
 
 
+def short_value_key(rng, digest, high_s=False, tries=4000):
+    """a key whose signature over `digest` has r or s below 2^247 (a leading zero byte followed by a
+    byte < 0x80 in the 32-byte form, as the Ethereum app returns them): the boundary class for
+    whoever DER-encodes (r, s). None if none found."""
+    for _ in range(tries):
+        k = Key(rng)
+        der = k.sign(digest, high_s=high_s)
+        rl = der[3]
+        r = int.from_bytes(der[4:4 + rl], "big")
+        s_ = int.from_bytes(der[6 + rl:], "big")
+        if r < (1 << 247) or s_ < (1 << 247):
+            return k
+    return None
+
+
 def _der_int(v):
     b = v.to_bytes((v.bit_length() + 7) // 8 or 1, "big")
     return (b"\x00" + b) if b[0] & 0x80 else b
@@ -698,7 +713,7 @@ def authorize(path, device, via):
     if via == "admin" and ok and "Signer authorized" not in out.getvalue():
         ok = False
     evs = apdu_events(world)
-    evs.append({"k": "outcome", "authorized": "t" if ok else "f", "exc": exc or "none"})
+    evs.append({"k": "outcome", "authorized": "t" if ok else "f", "exc": exc or "none", "fresh": "na"})
     return evs, exc
 
 
@@ -721,7 +736,109 @@ def authorize_object(obj, device):
     except Exception as e:
         ok, exc = False, type(e).__name__
     evs = apdu_events(world)
-    evs.append({"k": "outcome", "authorized": "t" if ok else "f", "exc": exc or "none"})
+    evs.append({"k": "outcome", "authorized": "t" if ok else "f", "exc": exc or "none", "fresh": "na"})
+    return evs
+
+
+def _content(obj_or_dict, via):
+    """content event from a real object (through the accessor named by `via`) or from a dict read by
+    the stdlib from disk"""
+    try:
+        if via == "dict":
+            d = obj_or_dict.to_dict()
+            h, it, sg = d["signer"]["hash"], d["signer"]["iteration"], d["signatures"]
+        elif via == "sigs":
+            h, it, sg = obj_or_dict.signer_version.hash, obj_or_dict.signer_version.iteration, \
+                obj_or_dict.signatures
+        elif via == "ver":
+            v = obj_or_dict.signer_version
+            h, it, sg = v.to_dict()["hash"], v.to_dict()["iteration"], obj_or_dict.to_dict()["signatures"]
+        elif via in ("save", "reload"):
+            h, it, sg = obj_or_dict.signer_version.hash, obj_or_dict.signer_version.iteration, \
+                obj_or_dict.signatures
+        else:       # disk
+            h, it, sg = obj_or_dict["hash"], obj_or_dict["iter"], obj_or_dict["sigs"]
+        return {"k": "content", "via": via, "hash": codes(h) if isinstance(h, str) else [],
+                "iter": it if (type(it) is int and abs(it) < 2 ** 31) else -7,
+                "sigs": [codes(x) if isinstance(x, str) else [] for x in sg]}
+    except Exception:
+        return {"k": "content", "via": via, "hash": [], "iter": -7, "sigs": []}
+
+
+def make_device(d):
+    return UIDevice([bytes.fromhex(a) for a in d["authorizers"]], d["threshold"], cur_iter=d["cur"])
+
+
+def run_history(path, ops, scratch, tag):
+    """2-3 operations on ONE SignerAuthorization object loaded from `path`:
+      {op: auth, device: {authorizers, threshold, cur} | same: true}   HSM2Dongle.authorize_signer(obj)
+      {op: dict | sigs | ver}      to_dict() / .signatures / .signer_version
+      {op: save}                   save_to_jsonfile, then the disk (stdlib) and a reload (real loader)
+      {op: add, sig: text}         add_signature
+    Every authorize is also run on a freshly loaded copy of a file the harness writes from the content
+    the object should have, against a device in the same state (`fresh` of the outcome event)."""
+    import copy
+    SA, _ = _mods()
+    evs = []
+    obj = SA.from_jsonfile(path)
+    expect = read_file(path)           # what the object should hold: disk at load + accepted adds
+    dev = None
+    for i, op in enumerate(ops):
+        if op["op"] == "auth":
+            if not op.get("same") or dev is None:
+                dev = make_device(op["device"])
+            twin = copy.deepcopy(dev)
+            evs.append({"k": "begin"})
+            aevs = authorize_object(obj, dev)
+            fp = os.path.join(scratch, "fresh_%s_%d.json" % (tag, i))
+            with open(fp, "w") as f:
+                f.write(json.dumps({"version": 1, "signer": {"hash": expect["hash"], "iteration": expect["iter"]},
+                                    "signatures": expect["sigs"]}) + "\n")
+            try:
+                fevs = authorize_object(SA.from_jsonfile(fp), twin)
+                aevs[-1]["fresh"] = fevs[-1]["authorized"]
+            except Exception:
+                aevs[-1]["fresh"] = "f"
+            os.unlink(fp)
+            evs.extend(aevs)
+        elif op["op"] in ("dict", "sigs", "ver"):
+            evs.append(_content(obj, op["op"]))
+        elif op["op"] == "save":
+            sp = os.path.join(scratch, "hsave_%s_%d.json" % (tag, i))
+            try:
+                obj.save_to_jsonfile(sp)
+                evs.append(_content(read_file(sp) or {}, "disk"))
+                evs.append(_content(SA.from_jsonfile(sp), "reload"))
+            except Exception:
+                evs.append(_content({}, "disk"))
+            if os.path.exists(sp):
+                os.unlink(sp)
+        elif op["op"] == "add":
+            try:
+                obj.add_signature(op["sig"])
+                ok = True
+            except Exception:
+                ok = False
+            after = _content(obj, "dict")
+            if ok:
+                expect["sigs"] = expect["sigs"] + [op["sig"]]
+            evs.append({"k": "add", "given": codes(op["sig"]), "ok": "t" if ok else "f",
+                        "after": {"hash": after["hash"], "iter": after["iter"], "sigs": after["sigs"]}})
+    return evs
+
+
+def admin_twice(path, devices, scratch):
+    """do_authorize_signer twice in one process on the same file (`devices`: two configs, the second
+    may be {"same": true}); then what is on disk."""
+    evs = []
+    dev = None
+    for d in devices:
+        if not d.get("same") or dev is None:
+            dev = make_device(d)
+        evs.append({"k": "begin"})
+        aevs, _ = authorize(path, dev, "admin")
+        evs.extend(aevs)
+    evs.append(_content(read_file(path) or {}, "disk"))
     return evs
 
 
@@ -734,6 +851,7 @@ def execute(recipe, scratch, tag):
       tools: [{op: key, key: hex} | {op: eth, key: hex, high_s, path} | {op: manual, sig: text}
               | {op: message}], each optionally with args: {app: name, iter: text}  (-a / -i)
       roundtrip: bool
+      history: [operations on one loaded object, see run_history]   admin_twice: [device, device]
       device: {authorizers: [hex pub], threshold, cur}   via: admin | dongle
     Returns (events, info)."""
     hin, iin, sigs = recipe["hash"], recipe["iter"], list(recipe["sigs"])
@@ -783,6 +901,10 @@ def execute(recipe, scratch, tag):
                 evs.append(tool_manual(path, t["sig"], args=args))
         if recipe.get("roundtrip") and os.path.exists(path):
             evs.append(roundtrip_event(path, scratch, tag))
+    if recipe.get("history") is not None and os.path.exists(path):
+        evs.extend(run_history(path, recipe["history"], scratch, tag))
+    if recipe.get("admin_twice") is not None and os.path.exists(path):
+        evs.extend(admin_twice(path, recipe["admin_twice"], scratch))
     d = recipe.get("device")
     if d is not None:
         dev = UIDevice([bytes.fromhex(a) for a in d["authorizers"]], d["threshold"], cur_iter=d["cur"])
